@@ -1,4 +1,6 @@
 """C11 - every lookup agrees with a scan of the stored objects (DESIGN.md section 4, C11)."""
+import re
+
 from lib import NAT, Raw, coqlit
 
 HEADER = ('From Coq Require Import List ZArith Bool.\nImport ListNotations.\n'
@@ -7,15 +9,112 @@ HEADER = ('From Coq Require Import List ZArith Bool.\nImport ListNotations.\n'
 KINDS = {'plain': 'Plain', 'unique': 'Unique', 'onen': 'OneN'}
 
 
+# model op <- public entry points; checked against the translator's list in run() (fail closed on a difference)
+EP = {'add': ['add_object', 'add_object_no_lock'], 'addm': ['add_objects', 'add_objects_no_lock'],
+      'remove': ['remove_object', 'remove_object_no_lock'], 'removem': ['remove_objects', 'remove_objects_no_lock'],
+      'update': ['update_object', 'update_object_no_lock'], 'updatem': ['update_objects', 'update_objects_no_lock'],
+      'clear': ['clear'], 'setver': ['set_version']}
+BATCH = {'addm': 'add', 'removem': 'remove', 'updatem': 'update'}
+
+
+def spec_keys(kind, nk, v):
+    """what a scan would find: the keys under which an object with attribute value v is listed"""
+    if v[0] == 'err':
+        return []
+    if kind in ('plain', 'unique'):
+        if v[0] == 'none':
+            return [None] if nk else []
+        if v[0] == 'one':
+            return [v[1]]
+        return []
+    if v[0] == 'list':
+        return list(v[1])
+    return []
+
+
+class Ref:
+    """The property's reading of a table, by scans only: which objects are stored, with which attribute values they
+    were last (re)indexed, and - from a scan of the stored objects - whether an insertion has to be rejected."""
+
+    def __init__(self, kinds, nobj, real):
+        self.kinds = kinds
+        self.attrs = [[['none'] if real else ['err']] * len(kinds) for _ in range(nobj)]
+        self.iattrs = [None] * nobj
+        self.stored = []
+
+    def holders(self, i, k, but=None):
+        kd, nk = self.kinds[i]
+        return [s for s in self.stored if s != but and self.iattrs[s] is not None
+                and k in spec_keys(kd, nk, self.iattrs[s][i])]
+
+    def rejects(self, o):
+        for i, (kd, nk) in enumerate(self.kinds):
+            if kd != 'unique':
+                continue
+            v = self.attrs[o][i]
+            if v[0] == 'list':
+                return True
+            if any(self.holders(i, k, but=o) for k in spec_keys(kd, nk, v)):
+                return True
+        return False
+
+    def one(self, what, o):
+        if what == 'add':
+            if o in self.stored:
+                return 0
+            if self.rejects(o):
+                return 1
+            self.stored.append(o)
+            self.iattrs[o] = list(self.attrs[o])
+            return 0
+        if what == 'remove':
+            if o in self.stored:
+                self.stored.remove(o)
+                self.iattrs[o] = None
+            return 0
+        if o not in self.stored:
+            return 2
+        self.iattrs[o] = None
+        if self.rejects(o):                 # a rejected re-index drops the object (roll-back of _mk_indices)
+            self.stored.remove(o)
+            return 1
+        self.iattrs[o] = list(self.attrs[o])
+        return 0
+
+    def apply(self, op):
+        """-> (result code, position of the element that stopped a batch or None)"""
+        if op[0] == 'set':
+            self.attrs[op[1]] = list(self.attrs[op[1]])
+            self.attrs[op[1]][op[2]] = op[3]
+        elif op[0] in ('add', 'remove', 'update'):
+            return self.one(op[0], op[1]), None
+        elif op[0] in BATCH:
+            for pos, o in enumerate(op[1]):
+                code = self.one(BATCH[op[0]], o)
+                if code:
+                    return code, pos
+        elif op[0] == 'clear':
+            self.stored = []
+            self.iattrs = [None] * len(self.iattrs)
+        return 0, None
+
+
 def gen_case(rng, max_ops, real=None):
     nidx = rng.randint(1, 4)
     kinds = [[rng.choice(['plain', 'unique', 'unique', 'onen']), rng.random() < 0.6] for _ in range(nidx)]
     if real:
         kinds = [[k.lower(), nk] for _, k, nk, _ in real[1]]
         nidx = len(kinds)
-    nobj = rng.randint(2, 5)
-    keyvals = list(range(1, rng.randint(2, 4) + 1))
+    nobj = rng.randint(3, 7)
+    keyvals = list(range(1, rng.randint(2, 6) + 1))
     ops = []
+    ref = Ref(kinds, nobj, bool(real))
+    feats = []
+    uidx = [i for i, (kd, _) in enumerate(kinds) if kd == 'unique']
+
+    def emit(op):
+        ops.append(op)
+        return ref.apply(op)
 
     def rand_val(kind):
         r = rng.random()
@@ -39,31 +138,120 @@ def gen_case(rng, max_ops, real=None):
             return ['err']
         return ['list', [rng.choice(keyvals) for _ in range(rng.randint(0, 2))]]
 
+    def ep(kind):
+        return rng.choice(EP[kind])
+
+    def some(objs, n):
+        objs = list(objs)
+        rng.shuffle(objs)
+        return objs[:n]
+
+    def make_acceptable(o, earlier):
+        """give o unique keys no stored object and no earlier batch element holds (as far as the key universe allows)"""
+        for u in uidx:
+            kd, nk = kinds[u]
+            used = set()
+            for s in ref.stored:
+                used.update(spec_keys(kd, nk, ref.iattrs[s][u]))
+            for e in earlier:
+                used.update(spec_keys(kd, nk, ref.attrs[e][u]))
+            v = ref.attrs[o][u]
+            if v[0] == 'list' or any(k in used for k in spec_keys(kd, nk, v)):
+                free = [k for k in keyvals if k not in used]
+                if free:
+                    emit(['set', o, u, ['one', rng.choice(free)]])
+
+    def add_batch():
+        mode = rng.choice(['empty', 'random', 'dupkey', 'dupkey', 'dupkey', 'dupkey', 'sameobj', 'stored', 'nonekey'])
+        fresh = [o for o in range(nobj) if o not in ref.stored]
+        size = rng.randint(1, 4)
+        if mode == 'empty':
+            batch = []
+        elif mode == 'random' or not fresh:
+            mode = 'random'
+            batch = [rng.randrange(nobj) for _ in range(size)]
+        elif mode == 'sameobj':
+            batch = some(fresh, size)
+            for n, o in enumerate(batch):
+                make_acceptable(o, batch[:n])
+            twin = rng.choice(batch)
+            batch.insert(rng.randint(0, len(batch)), twin)
+        elif mode == 'stored':
+            batch = some(fresh, size)
+            if ref.stored:
+                batch.insert(rng.randint(0, len(batch)), rng.choice(ref.stored))
+            else:
+                mode = 'random'
+        elif mode == 'nonekey':
+            batch = some(fresh, size)
+            for o in some(batch, rng.randint(1, 2)):
+                emit(['set', o, rng.randrange(nidx), ['none']])
+        else:
+            batch = some(fresh, size)
+            pos = rng.randrange(len(batch))
+            for n, o in enumerate(batch[:pos]):
+                make_acceptable(o, batch[:n])
+            donors = batch[:pos] + ref.stored
+            if uidx and donors:
+                u = rng.choice(uidx)
+                d = rng.choice(donors)
+                kd, nk = kinds[u]
+                v = ref.iattrs[d][u] if d in ref.stored else ref.attrs[d][u]
+                if spec_keys(kd, nk, v):
+                    emit(['set', batch[pos], u, v])      # the unique key of a stored / earlier object, at position pos
+                    mode = f'dupkey@{pos}'
+        feats.append(mode)
+        emit(['addm', batch, ep('addm')])
+
     # give every object initial attribute values
     for o in range(nobj):
         for i in range(nidx):
             if real or rng.random() < 0.85:
-                ops.append(['set', o, i, rand_val(kinds[i][0])])
+                emit(['set', o, i, rand_val(kinds[i][0])])
     for _ in range(rng.randint(3, max_ops)):
         r = rng.random()
         o = rng.randrange(nobj)
-        if r < 0.35:
-            ops.append(['add', o])
-        elif r < 0.5:
-            ops.append(['remove', o])
-        elif r < 0.75:
+        if r < 0.14:
+            emit(['add', o, ep('add')])
+        elif r < 0.38:
+            add_batch()
+        elif r < 0.45:
+            emit(['remove', -1 if rng.random() < 0.1 else o, ep('remove')])      # -1: None
+        elif r < 0.53:
+            batch = [rng.choice([-1] + list(range(nobj))) for _ in range(rng.randint(0, 4))]
+            if ref.stored and rng.random() < 0.6:
+                batch.insert(rng.randint(0, len(batch)), rng.choice(ref.stored))
+            emit(['removem', batch, ep('removem')])
+        elif r < 0.68:
             i = rng.randrange(nidx)
-            ops.append(['set', o, i, rand_val(kinds[i][0])])
+            emit(['set', o, i, rand_val(kinds[i][0])])
             if rng.random() < 0.8:
-                ops.append(['update', o])
-        elif r < 0.92:
-            ops.append(['update', o])
+                emit(['update', o, ep('update')])
+        elif r < 0.75:
+            emit(['update', o, ep('update')])
+        elif r < 0.87:
+            batch = some(ref.stored, rng.randint(0, 3)) if rng.random() < 0.7 else \
+                [rng.randrange(nobj) for _ in range(rng.randint(0, 4))]
+            if batch and rng.random() < 0.3:
+                batch.insert(rng.randint(0, len(batch)), rng.choice(batch))        # the same object twice
+            for x in batch:
+                if rng.random() < 0.5:
+                    i = rng.randrange(nidx)
+                    emit(['set', x, i, rand_val(kinds[i][0])])
+            emit(['updatem', batch, ep('updatem')])
+        elif r < 0.91:
+            emit(['clear'])
+        elif real and r < 0.95:
+            emit(['bump', o, rng.randint(1, 3)])
+        elif real:
+            emit(['setver', o, 'set_version'])
         else:
-            ops.append(['clear'])
-    c = {'kinds': kinds, 'nobj': nobj, 'keys': [-1] + keyvals, 'ops': ops, 'no_lock': rng.random() < 0.3}
+            emit(['add', o, ep('add')])
+    c = {'kinds': kinds, 'nobj': nobj, 'keys': [-1] + keyvals, 'ops': ops, 'features': feats}
     if real:
         c['table'] = real[0]
         c['attr_names'] = [a for _, _, _, a in real[1]]
+        c['version_attrs'] = real[2]
     return c
 
 
@@ -77,6 +265,16 @@ def lit_val(v):
     return '(VList ' + coqlit(v[1]) + ')'
 
 
+NON_MODEL = ('bump', 'setver')      # ops on the version side table: no effect on objects / indices (oracle only)
+UNOBSERVED = NON_MODEL + ('set',)   # the model's run_obs emits no observation after SetAttr (the oracle checks obs == prev)
+CTOR = {'add': 'Add', 'remove': 'Remove', 'update': 'Update', 'addm': 'AddMany', 'removem': 'RemoveMany',
+        'updatem': 'UpdateMany'}
+
+
+def zl(n):
+    return f'({n})' if n < 0 else str(n)
+
+
 def lit_case(c):
     kinds = '[' + '; '.join(f'{KINDS[k]} {"true" if nk else "false"}' for k, nk in c['kinds']) + ']'
     if c.get('table'):
@@ -85,105 +283,167 @@ def lit_case(c):
     os_ = coqlit(list(range(c['nobj'])))
     ops = []
     for op in c['ops']:
+        if op[0] in NON_MODEL:
+            continue
         if op[0] == 'set':
             ops.append(f'SetAttr {op[1]} {op[2]}%nat {lit_val(op[3])}')
         elif op[0] == 'clear':
             ops.append('Clear')
+        elif op[0] in BATCH:
+            ops.append(f'{CTOR[op[0]]} [' + '; '.join(zl(o) for o in op[1]) + ']')
         else:
-            ops.append(f'{op[0].capitalize()} {op[1]}')
+            ops.append(f'{CTOR[op[0]]} {zl(op[1])}')
     return f'({kinds}, {keys}, {os_}, [' + '; '.join(ops) + '])'
 
 
-def lit_trace(tr):
+def lit_trace(c, tr):
     items = []
-    for code, (objs, n, idx, refs) in tr:
+    for op, (code, (objs, n, idx, refs), _) in zip(c['ops'], tr):
+        if op[0] in UNOBSERVED:
+            continue
         refs_l = '[' + '; '.join('[' + '; '.join(f'({a}, {b})' for a, b in r) + ']' for r in refs) + ']'
         items.append(f'({code}, ({coqlit(objs)}, {n}, {coqlit(idx)}, {refs_l}))')
     return '[' + '; '.join(items) + ']'
 
 
-def spec_keys(kind, nk, v):
-    """what a scan would find: the keys under which an object with attribute value v is listed"""
-    if v[0] == 'err':
-        return []
-    if kind in ('plain', 'unique'):
-        if v[0] == 'none':
-            return [None] if nk else []
-        if v[0] == 'one':
-            return [v[1]]
-        return []
-    if v[0] == 'list':
-        return list(v[1])
-    return []
+OUTCOME = {0: 'ok', 1: 'rejected', 2: 'not-known', 9: 'other-exception'}
 
 
-def oracle(case, trace):
-    """C11 evaluated directly on the implementation trace: after every op each index equals the grouping
-    of the stored objects by the attribute values of the last (re)index; a rejected add changes nothing."""
+def oracle(case, trace, hist=None):
+    """C11 evaluated directly on the implementation trace.  After EVERY op (accepted or rejected, single or bulk, any
+    entry point): the stored objects are what the history says; every index at every key equals the grouping of the
+    stored objects by the attribute values of their last (re)index; the back references are exactly the keys a scan
+    yields; a rejected insert leaves the table exactly as it was; a rejected BULK insert leaves exactly the table
+    with the accepted prefix (what the unchanged code does: a loop over the single insert that stops at the first
+    rejected element)."""
     kinds, nobj = case['kinds'], case['nobj']
-    attrs = [[['err']] * len(kinds) for _ in range(nobj)]
-    iattrs = [None] * nobj
-    prev = None
+    ref = Ref(kinds, nobj, bool(case.get('table')))
+    prev, prev_extra = None, None
     keys = [None if k == -1 else k for k in case['keys']]
-    for n, (op, (code, obs)) in enumerate(zip(case['ops'], trace)):
+    vattr = case.get('version_attrs')
+    for n, (op, (code, obs, extra)) in enumerate(zip(case['ops'], trace)):
         objs, cnt, idx, refs = obs
+        before = list(ref.stored)
+        want_code, pos = ref.apply(op)
+        if hist is not None:
+            name = op[2] if len(op) > 2 and isinstance(op[2], str) else op[0]
+            key = f'{name}:{OUTCOME.get(code, code)}'
+            if op[0] in BATCH and code:
+                key += f'@{min(pos, 3) if pos is not None else "?"}'
+            hist[key] = hist.get(key, 0) + 1
         if code == 9:
             return n, 'unexpected exception type'
-        if op[0] == 'set':
-            attrs[op[1]] = list(attrs[op[1]])
-            attrs[op[1]][op[2]] = op[3]
-        if op[0] in ('add', 'update') and code == 0 and op[1] in objs and (op[0] == 'update' or iattrs[op[1]] is None):
-            iattrs[op[1]] = list(attrs[op[1]])
-        if op[0] == 'clear':
-            iattrs = [None] * nobj
-        for o in range(nobj):
-            if o not in objs:
-                iattrs[o] = None
+        if op[0] in ('set', 'bump', 'setver') and (code != 0 or (prev is not None and obs != prev)):
+            return n, 'an operation that does not touch the table changed it'
         if op[0] == 'add' and code == 1 and prev is not None and obs != prev:
             return n, 'rejected insert changed the table'
+        if op[0] == 'addm' and code == 1 and want_code == 1 and objs != sorted(ref.stored):
+            return n, (f'rejected bulk insert: stored objects {objs}, but the table before plus the accepted prefix '
+                       f'{op[1][:pos]} is {sorted(ref.stored)}')
+        if op[0] == 'addm' and code == 1 and pos == 0 and prev is not None and obs != prev:
+            return n, 'rejected bulk insert (first element rejected) changed the table'
+        if code != want_code:
+            return n, (f'outcome {OUTCOME.get(code)} but a scan of the stored objects implies {OUTCOME.get(want_code)}'
+                       + (f' (element {pos} of the batch)' if pos is not None else ''))
+        if objs != sorted(ref.stored):
+            return n, f'stored objects {objs} but the history implies {sorted(ref.stored)} (before: {sorted(before)})'
         if cnt != len(objs):
             return n, 'object count differs from distinct objects'
         for i, (kd, nk) in enumerate(kinds):
             if len(idx[i]) != len(keys):
                 return n, f'index {i} holds an empty list or a key outside the universe'
             for k, lst in zip(keys, idx[i]):
-                want = sorted(o for o in objs for kk in spec_keys(kd, nk, iattrs[o] and iattrs[o][i] or ['err']) if kk == k)
+                want = sorted(o for o in objs for kk in spec_keys(kd, nk, ref.iattrs[o][i]) if kk == k)
                 if sorted(lst) != want:
                     return n, f'index {i} key {k}: lookup {lst} but scan gives {want}'
-        prev = obs
+        for o in range(nobj):
+            if o in objs:
+                want = sorted([i, -1 if k is None else k] for i, (kd, nk) in enumerate(kinds)
+                              for k in spec_keys(kd, nk, ref.iattrs[o][i]))
+            else:
+                want = [[-2, -2]]
+            if sorted(refs[o]) != want:
+                return n, f'back references of object {o}: {refs[o]} but a scan of its keys gives {want}'
+        if vattr and extra is not None:
+            vi, ki = (0 if vattr[0] == 'DescriptorVersion' else 1), case['attr_names'].index(vattr[1])
+            hvl = {k: v for k, v in extra['hvl']}
+
+            def vkey(o):
+                v = ref.attrs[o][ki]
+                return -1 if v[0] == 'none' else v[1]
+            if prev_extra is not None:
+                if op[0] not in ('remove', 'removem') and extra['hvl'] != prev_extra['hvl']:
+                    return n, 'version side table changed by an operation that removes nothing'
+                if op[0] not in ('bump', 'setver') and extra['ver'] != prev_extra['ver']:
+                    return n, 'object versions changed by a table operation'
+                if op[0] == 'setver':
+                    was = prev_extra['ver'][op[1]][vi]
+                    want = hvl[vkey(op[1])] + 1 if vkey(op[1]) in hvl else was
+                    others = [a == b for m, (a, b) in enumerate(zip(extra['ver'], prev_extra['ver'])) if m != op[1]]
+                    if extra['ver'][op[1]][vi] != want or not all(others):
+                        return n, f'set_version: version {extra["ver"][op[1]][vi]}, remembered+1 is {want}'
+            if op[0] in ('remove', 'removem'):
+                gone = [o for o in before if o not in ref.stored]
+                named = [g for g in (op[1] if op[0] == 'removem' else [op[1]]) if g != -1]
+                for o in gone:      # _save_version also remembers objects of the batch that were not stored
+                    cands = {extra['ver'][g][vi] for g in named if vkey(g) == vkey(o)}
+                    if hvl.get(vkey(o)) not in cands:
+                        return n, f'version of removed object {o} not remembered: {hvl.get(vkey(o))} not in {sorted(cands)}'
+        prev, prev_extra = obs, extra
     return None
 
 
 def run(ctx):
     ctx.regenerate('gen_multikey_tables', 'Multikey/Gen_Tables.v')
     gen = ctx.impl('gen_multikey_tables', {})
-    tables = list(gen.get('tables', {}).items())
+    tables = [(name, idx, gen.get('version_attrs', {}).get(name)) for name, idx in gen.get('tables', {}).items()]
+    # the op generator must drive exactly the entry points the translator found and classified (fail closed)
+    want_eps = {**gen.get('entry_points', {}), **gen.get('entry_points_versioned', {})}
+    if want_eps != EP:
+        ctx.broken('translator', 'entry points', {'translator': want_eps, 'op generator': EP,
+                                                  'crash': str(gen.get('stderr', ''))[-600:]})
     proof_ok = ctx.prove()
     if not proof_ok:
         ctx.broken('theorem', 'Props/C11.v', ctx.proof_error)
     ncases = ctx.n(800, 12000)
     max_ops = ctx.n(18, 60)
-    cases = [gen_case(ctx.rng, max_ops, real=(tables[n % len(tables)] if tables and n % 3 == 0 else None))
+    # every third case runs on a real MDIB table class (descriptors / states / multistates in turn)
+    cases = [gen_case(ctx.rng, max_ops, real=(tables[(n // 3) % len(tables)] if tables and n % 3 == 0 else None))
              for n in range(ncases)]
+    import time
+    t_impl = time.time()
     impl = ctx.impl('c11_impl', {'cases': cases}, timeout=1200)
+    t_impl = time.time() - t_impl
     if impl.get('_crash'):
         ctx.broken('correspondence', 'table', impl['stderr'])
         return ctx.finish('implementation run crashed', [], [])
     traces = impl['traces']
-    hist = {'add': 0, 'remove': 0, 'update': 0, 'clear': 0, 'set': 0, 'rejected': 0, 'valueerror': 0}
+    hist, feats, per_table = {}, {}, {}
     for c, tr in zip(cases, traces):
-        for op, (code, _) in zip(c['ops'], tr):
-            hist[op[0]] += 1
-            hist['rejected'] += code == 1
-            hist['valueerror'] += code == 2
-        bad = oracle(c, tr)
+        bad = oracle(c, tr, hist)
+        for f in c['features']:
+            feats[f] = feats.get(f, 0) + 1
+        tname = c.get('table', 'generic')
+        for op in c['ops']:
+            if len(op) > 2 and isinstance(op[2], str):
+                per_table.setdefault(tname, set()).add(op[2])
+            elif op[0] == 'clear':
+                per_table.setdefault(tname, set()).add('clear')
         if bad:
             n, why = bad
-            ctx.fail(f'table stream: after op {n} {c["ops"][n]}: {why}',
-                     {'stream': 'table', 'clause': why.split(':')[0].split(' key')[0]},
+            ctx.fail(f'table stream ({tname}): after op {n} {c["ops"][n]}: {why}',
+                     {'stream': 'table', 'clause': re.sub(r'\d+', 'N', why.split(':')[0].split(' key')[0].split(' (element')[0])},
                      {'stream': 'table', 'case': c, 'impl_trace': tr[:n + 1], 'oracle': {'verdict': 'fail', 'clause': why}})
-    lits = [(lit_case(c), lit_trace(tr)) for c, tr in zip(cases, traces)]
+    # every entry point of every table class must really have been driven
+    surface = gen.get('surface', {})
+    undriven = {t: sorted(set(eps) - per_table.get(t, set())) for t, eps in surface.items() if t != 'versioned-base'}
+    undriven = {t: e for t, e in undriven.items() if e}
+    if undriven:
+        ctx.broken('correspondence', 'table (entry points never called)', undriven)
+    lits = [(lit_case(c), lit_trace(c, tr)) for c, tr in zip(cases, traces)]
+    t_coq = time.time()
     mism, err = ctx.coq_mism('table', HEADER, 'trace_eqb', 'run_case', lits, shard=150, deps=['Multikey/Model.vo', 'Multikey/Gen_Tables.vo'])
+    ctx.log(f'table stream: implementation run {t_impl:.1f}s, model evaluation (vm_compute) {time.time() - t_coq:.1f}s')
     if err:
         ctx.broken('correspondence', 'table (coq evaluation)', err)
     if mism:
@@ -191,7 +451,13 @@ def run(ctx):
         model = ctx.coq_eval(HEADER, f'run_case {lits[i][0]}')
         ctx.broken('correspondence', 'table', {'disagreements': len(mism), 'first_case': cases[i],
                                                'impl_trace': traces[i], 'model_trace': model[-3000:]})
-    ctx.count('table', len(cases), [repr(t) for t in traces], histogram=hist)
+    hist = dict(sorted(hist.items()))
+    print('[C11] entry point x outcome (bulk: @position of the element that stopped the batch):')
+    for name in sorted({k.split(':')[0] for k in hist}):
+        print('        ' + name.ljust(24) + '  '.join(f'{k.split(":")[1]}={v}' for k, v in hist.items() if k.split(':')[0] == name))
+    print('[C11] bulk insert batches by construction: ' + ', '.join(f'{k}={v}' for k, v in sorted(feats.items())))
+    ctx.count('table', len(cases), [repr(t) for t in traces], histogram=hist, batch_features=dict(sorted(feats.items())),
+              entry_points_per_table={t: len(v) for t, v in sorted(per_table.items())})
     ctx.sample({'stream': 'table', 'case': cases[0], 'final_observation': traces[0][-1]})
     # ---- stream `mdib-index`: after every transaction / report every index of the provider's and the consumer's
     # tables is recomputed from table.objects with the CURRENT attribute values and compared (harness/mdibrun.py)
@@ -208,10 +474,15 @@ def run(ctx):
             ctx.broken('theorem', 'grep gate', hits)
         ctx.coqchk('SDC.Props.C11')
     return ctx.finish(
-        rule='random op lists (add / remove / set-attribute / update(reindex) / clear, 1-4 indices of the three kinds, '
-             'None / scalar / list / raising key functions, locked and _no_lock variants) on a real MultiKeyLookup; after '
-             'every op the object set, every index at every key and the per-object reference lists are compared with '
-             'the model (vm_compute) and judged by the scan oracle; distinct = distinct implementation traces',
+        rule='random op lists over EVERY public mutating entry point (add_object(s)/remove_object(s)/update_object(s), '
+             'locked and _no_lock, clear, set_version; the list comes from the translator, which fails closed on an '
+             'unclassified public member) on a real MultiKeyLookup (1-4 indices of the three kinds, None / scalar / list / '
+             'raising key functions) and on the real DescriptorsLookup / StatesLookup / MultiStatesLookup; bulk batches '
+             'with a duplicate unique key at a chosen position, the same object twice, stored objects, empty, None keys, '
+             'None objects; after every op the object set, every index at every key and the per-object reference lists '
+             'are compared with the model (vm_compute) and judged by the scan oracle (stored set and outcome implied by '
+             'the history, index = scan, back references = scan, rejected insert = no-op, rejected bulk insert = accepted '
+             'prefix, version side table); distinct = distinct implementation traces',
         assumptions=['objects are compared by identity (stub objects without __eq__)', 'keys are ints or None'],
         trusted_base=['correspondence harness harness/impl/c11_impl.py (stub objects, reads _objects/_object_ids/index dicts)',
                       'model evaluated inside Coq with vm_compute on generated case files'],
